@@ -42,7 +42,7 @@ TECHNIQUE = "deterministic simulation: device-side write monitor over read-only 
 
 STRIDE = {"quick": 11, "thorough": 1}
 N_INVALID = {"quick": 600, "thorough": 30000}
-INVALID_KINDS = ["export", "dod", "eco_power", "eco_soc", "unknown_id", "raw_register", "raw_value"]
+INVALID_KINDS = ["export", "dod", "eco_power", "eco_soc", "unknown_id", "raw_register", "raw_value", "refused_id"]
 READ_CALLS = ["read_device_info", "read_runtime_data", "read_runtime_data", "read_sensor", "read_setting_all",
               "read_settings_data", "get_grid_export_limit", "get_operation_modes", "get_operation_mode",
               "get_ongrid_battery_dod", "read_runtime_data"]
@@ -95,10 +95,15 @@ def make_case(tier, seed, index):
             "unknown_id": [0],
             # the raw register access 'modbus-<n>': register numbers that do not exist / values that do not fit a register
             "raw_register": [-1, -5, -65536, 65536, 65537, 99999, 70000, 1 << 20, (1 << 16) + 47000],
-            "raw_value": [65536, 70000, -32769, -65536, 1 << 20, -(1 << 20), 99999]}[kind]
+            "raw_value": [65536, 70000, -32769, -65536, 1 << 20, -(1 << 20), 99999],
+            # a setting whose register THIS inverter refuses (ILLEGAL DATA ADDRESS): once the library has learnt that
+            # from a read, the id is an unknown setting id for this object
+            "refused_id": [0, 1, 2, 3, 5, 8, 13, 21, 34]}[kind]
     args = base + [rnd.choice([-1, 1]) * rnd.randrange(101, 70000) for _ in range(6)]
     if kind == "export":
         args = base + [-rnd.randrange(1, 70000) for _ in range(6)]
+    if kind == "refused_id":
+        args = base + [rnd.randrange(0, 200) for _ in range(4)]
     if kind == "raw_register":
         args = base + [rnd.choice([-rnd.randrange(1, 70000), 65536 + rnd.randrange(0, 200000)]) for _ in range(6)]
     if kind == "raw_value":
@@ -367,6 +372,21 @@ def run_invalid(case):
                 mode = gw.OperationMode.ECO_CHARGE if a % 2 else gw.OperationMode.ECO_DISCHARGE
                 rec = await C.do_call(world, label, lambda: inv.set_operation_mode(mode, 50, a))
                 must_raise = fam != "DT"
+            elif kind == "refused_id":
+                if fam == "ES":
+                    continue   # ES reads its block settings from the settings block; there is nothing to refuse
+                sts = [x for x in inv.settings() if x.offset >= 40000 and type(x).__name__ in ("Integer", "IntegerS", "Decimal")]
+                if not sts:
+                    continue
+                x = sts[a % len(sts)]
+                dev.exc_map.append((x.offset, x.offset, 2))
+                dev.label = None
+                await C.do_call(world, "probe", lambda: inv.read_setting(x.id_))   # learns that the register is refused
+                if x.id_ in {y.id_ for y in inv.settings()}:
+                    continue   # still listed (not pruned by this read path): the id is not unknown, nothing to demand
+                dev.label = label
+                rec = await C.do_call(world, label, lambda: inv.write_setting(x.id_, 1))
+                must_raise = True
             elif kind == "raw_register":
                 rec = await C.do_call(world, label, lambda: inv.write_setting(f"modbus-{a}", 1))
                 must_raise = True
